@@ -70,6 +70,9 @@ type ScriptConn struct {
 	ops      int
 	failed   bool
 	Closed   bool
+	// Resume: the fault is transient: it is reported once (alone, never together with bytes),
+	// after which the transport goes on delivering these chunks (then fails for good).
+	Resume [][]byte
 }
 
 func NewScriptConn(chunks [][]byte, fault int, glued bool) *ScriptConn {
@@ -90,6 +93,9 @@ func (c *ScriptConn) Read(p []byte) (int, error) {
 		c.MaxRead = len(p)
 	}
 	if len(c.Chunks) == 0 {
+		if len(c.Resume) > 0 {
+			c.Chunks, c.Resume = c.Resume, nil
+		}
 		return 0, faultErr(c.Fault)
 	}
 	if len(p) == 0 {
